@@ -286,6 +286,10 @@ def run(p: Program, rep: Report, tier: str) -> None:
                     if ncs != want_cs:
                         flag(f"{opname}: client_state {ncs} after script state {ns}", "R11.2", fn,
                              f"after {opname} (from client={cs}, app={as_}) client_state is {ncs} but the server events delivered so far put the peer in {want_cs}")
+                    # only the receive variants may consume a data frame / disconnect; accept() may consume `connect`
+                    if recv_done and not meth.startswith("receive") and ev not in ("websocket.connect", "<none>", None):
+                        flag(f"{opname}: consumes {ev} (client={cs}, app={as_})", "R11.2", fn,
+                             f"{opname} in state client={cs}, app={as_} consumes the server's {ev} event and discards it: received frames are no longer returned in order exactly once")
                     # receive variants return the event of their own raw receive
                     if pa.exit == "return" and meth.startswith("receive") and recv_done:
                         rv = [x.value for x in steps if x.kind == "recv"][0]
@@ -308,6 +312,13 @@ def run(p: Program, rep: Report, tier: str) -> None:
         rep.ok("R11.2", f"exhaustive product: {len(seen)} reachable states, {transitions} transitions, no illegal forward, no receive after disconnect, monotone states")
     rep.obligations += transitions
     rep.discharged += transitions - len(flagged)
+    # transition before forwarding (the mechanism the property's anchors name): on every path of send() the state store
+    # precedes the raw _send, so a second caller arriving while the server's send() is suspended sees the new state
+    for pa, steps in extracted["send"]:
+        kinds = [st.kind for st in steps]
+        if "send" in kinds and "store_app" in kinds and kinds.index("send") < kinds.index("store_app"):
+            flag("send: forwards before the state transition", "R11.2", p.find_method(ws, "send"),
+                 "send() forwards the message to the server before it records the state transition: while the server's send() is suspended a second close()/send() still sees the old state and is forwarded too (close is not idempotent, events after close)")
     # literal messages of the helpers
     for meth, want in (("accept", "websocket.accept"), ("send_text", "websocket.send"), ("send_bytes", "websocket.send"), ("close", "websocket.close")):
         types = set()
